@@ -317,8 +317,15 @@ def run_check(pid, tier, seed, replay=None):
     }
     if hasattr(mod, "extra_coverage"):
         coverage.update(mod.extra_coverage(cases, results, tier))
-    core.write_evidence(pid, tier, seed, coverage,
-                        list(getattr(mod, "ASSUMPTIONS", [])), time.time() - t0, n_viol)
+    if replay:
+        # a replay re-runs ONE stored case: it must not overwrite the evidence of the last full run
+        coverage["replay_of"] = replay
+        core.write_evidence(pid + ".replay", tier, seed, coverage,
+                            list(getattr(mod, "ASSUMPTIONS", [])), time.time() - t0, n_viol,
+                            directory=os.path.join(core.BUILD, "evidence"))
+    else:
+        core.write_evidence(pid, tier, seed, coverage,
+                            list(getattr(mod, "ASSUMPTIONS", [])), time.time() - t0, n_viol)
     for ln in lines:
         print(ln)
     print("check %s tier=%s seed=%d: %d/%d obligations, %d cases (%d distinct non-trivial), "
